@@ -31,7 +31,11 @@ instance (s : State) : Decidable (RecordsHaveSession s) := by unfold RecordsHave
 instance (s : State) : Decidable (RecordsInSessionScope s) := by unfold RecordsInSessionScope; infer_instance
 instance (s : State) : Decidable (UsedSessionsHaveScope s) := by unfold UsedSessionsHaveScope; infer_instance
 
-/-! ### lookups: what the by-address / by-specification / by-owner queries return -/
+/-! ### lookups: what the by-address / by-specification / by-owner queries return
+
+The by-address / by-owner / by-value-owner queries take an ACCOUNT (`sdk.AccAddress`); the index
+entries are keyed by account.  "The stored content names that address" means: one of the stored
+texts denotes that account (`B text = account`). -/
 
 /-- `IterateScopesForAddress` -/
 def scopesForAddress (s : State) (a : Addr) : List UUID := (s.idxAddrScope.filter (fun p => p.1 = a)).map (·.2)
@@ -46,33 +50,65 @@ def contractSpecsForOwner (s : State) (a : Addr) : List UUID := (s.idxAddrCSpec.
 /-- `bankKeeper.GetScopesForValueOwner` -/
 def scopesForValueOwner (s : State) (a : Addr) : List UUID := (s.valueOwners.filter (fun p => p.2 = a)).map (·.1)
 
+/-- nothing stale: every index entry is a (value, entity id) pair a stored entity names -/
+def IdxSound {α β κ : Type} (ents : List α) (key : α → κ) (vals : α → List β) (idx : List (β × κ)) : Prop :=
+  ∀ p ∈ idx, ∃ e ∈ ents, key e = p.2 ∧ p.1 ∈ vals e
+/-- nothing missing: every (value, entity id) pair a stored entity names has its index entry -/
+def IdxComplete {α β κ : Type} (ents : List α) (key : α → κ) (vals : α → List β) (idx : List (β × κ)) : Prop :=
+  ∀ e ∈ ents, ∀ b ∈ vals e, (b, key e) ∈ idx
 /-- An index lists exactly the (value, entity id) pairs the stored entities name: nothing stale,
 nothing missing. -/
 def IdxExact {α β κ : Type} (ents : List α) (key : α → κ) (vals : α → List β) (idx : List (β × κ)) : Prop :=
-  (∀ p ∈ idx, ∃ e ∈ ents, key e = p.2 ∧ p.1 ∈ vals e) ∧ (∀ e ∈ ents, ∀ b ∈ vals e, (b, key e) ∈ idx)
+  IdxSound ents key vals idx ∧ IdxComplete ents key vals idx
 
+instance {α β κ : Type} [DecidableEq β] [DecidableEq κ] (ents : List α) (key : α → κ) (vals : α → List β)
+    (idx : List (β × κ)) : Decidable (IdxSound ents key vals idx) := by unfold IdxSound; infer_instance
+instance {α β κ : Type} [DecidableEq β] [DecidableEq κ] (ents : List α) (key : α → κ) (vals : α → List β)
+    (idx : List (β × κ)) : Decidable (IdxComplete ents key vals idx) := by unfold IdxComplete; infer_instance
 instance {α β κ : Type} [DecidableEq β] [DecidableEq κ] (ents : List α) (key : α → κ) (vals : α → List β)
     (idx : List (β × κ)) : Decidable (IdxExact ents key vals idx) := by unfold IdxExact; infer_instance
 
-/-- the addresses a scope's stored content names: its owners and its data-access list -/
+/-- the address TEXTS a scope's stored content names: its owners and its data-access list -/
 def Scope.addrs (sc : Scope) : List Addr := sc.owners ++ sc.dataAccess
 
-/-- by-address lookup of scopes (0x17) -/
-def AddrScopeExact (s : State) : Prop := IdxExact s.scopes (·.id) Scope.addrs s.idxAddrScope
+section
+variable (B : Addr → Addr)
+
+/-- the ACCOUNTS a scope's stored content names -/
+def Scope.accts (sc : Scope) : List Addr := sc.addrs.map B
+
+/-- by-address lookup of scopes (0x17): exactly the (account, scope) pairs where one of the
+scope's stored owner / data-access texts denotes the account -/
+def AddrScopeExact (s : State) : Prop := IdxExact s.scopes (·.id) (Scope.accts B) s.idxAddrScope
 /-- by-specification lookup of scopes (0x11) -/
 def SpecScopeExact (s : State) : Prop := IdxExact s.scopes (·.id) (fun sc => [sc.spec]) s.idxSpecScope
-/-- by-owner lookup of scope specifications (0x19) -/
-def OwnerScopeSpecExact (s : State) : Prop := IdxExact s.scopeSpecs (·.id) (·.owners) s.idxAddrScopeSpec
+/-- by-owner lookup of scope specifications (0x19): nothing stale / nothing missing / both -/
+def OwnerScopeSpecSound (s : State) : Prop := IdxSound s.scopeSpecs (·.id) (fun sp => sp.owners.map B) s.idxAddrScopeSpec
+def OwnerScopeSpecComplete (s : State) : Prop := IdxComplete s.scopeSpecs (·.id) (fun sp => sp.owners.map B) s.idxAddrScopeSpec
+def OwnerScopeSpecExact (s : State) : Prop := IdxExact s.scopeSpecs (·.id) (fun sp => sp.owners.map B) s.idxAddrScopeSpec
 /-- by-contract-specification lookup of scope specifications (0x14) -/
 def CSpecScopeSpecExact (s : State) : Prop := IdxExact s.scopeSpecs (·.id) (·.cspecs) s.idxCSpecScopeSpec
-/-- by-owner lookup of contract specifications (0x20) -/
-def OwnerCSpecExact (s : State) : Prop := IdxExact s.contractSpecs (·.id) (·.owners) s.idxAddrCSpec
+/-- by-owner lookup of contract specifications (0x20): nothing stale / nothing missing / both -/
+def OwnerCSpecSound (s : State) : Prop := IdxSound s.contractSpecs (·.id) (fun sp => sp.owners.map B) s.idxAddrCSpec
+def OwnerCSpecComplete (s : State) : Prop := IdxComplete s.contractSpecs (·.id) (fun sp => sp.owners.map B) s.idxAddrCSpec
+def OwnerCSpecExact (s : State) : Prop := IdxExact s.contractSpecs (·.id) (fun sp => sp.owners.map B) s.idxAddrCSpec
 
-instance (s : State) : Decidable (AddrScopeExact s) := by unfold AddrScopeExact; infer_instance
+instance (s : State) : Decidable (AddrScopeExact B s) := by unfold AddrScopeExact; infer_instance
 instance (s : State) : Decidable (SpecScopeExact s) := by unfold SpecScopeExact; infer_instance
-instance (s : State) : Decidable (OwnerScopeSpecExact s) := by unfold OwnerScopeSpecExact; infer_instance
+instance (s : State) : Decidable (OwnerScopeSpecSound B s) := by unfold OwnerScopeSpecSound; infer_instance
+instance (s : State) : Decidable (OwnerScopeSpecComplete B s) := by unfold OwnerScopeSpecComplete; infer_instance
+instance (s : State) : Decidable (OwnerScopeSpecExact B s) := by unfold OwnerScopeSpecExact; infer_instance
 instance (s : State) : Decidable (CSpecScopeSpecExact s) := by unfold CSpecScopeSpecExact; infer_instance
-instance (s : State) : Decidable (OwnerCSpecExact s) := by unfold OwnerCSpecExact; infer_instance
+instance (s : State) : Decidable (OwnerCSpecSound B s) := by unfold OwnerCSpecSound; infer_instance
+instance (s : State) : Decidable (OwnerCSpecComplete B s) := by unfold OwnerCSpecComplete; infer_instance
+instance (s : State) : Decidable (OwnerCSpecExact B s) := by unfold OwnerCSpecExact; infer_instance
+
+/-- the (account, specification) pairs the stored specifications name that the by-owner lookups
+do NOT list (the driver tells apart which of them a known defect explains) -/
+def missingOwnerScopeSpec (s : State) : List (Addr × UUID) :=
+  (s.scopeSpecs.flatMap fun sp => sp.owners.map fun a => (B a, sp.id)).filter (fun p => p ∉ s.idxAddrScopeSpec)
+def missingOwnerCSpec (s : State) : List (Addr × UUID) :=
+  (s.contractSpecs.flatMap fun sp => sp.owners.map fun a => (B a, sp.id)).filter (fun p => p ∉ s.idxAddrCSpec)
 
 /-- value-owner coins and net asset values exist only for existing scopes -/
 def ValueOwnersHaveScope (s : State) : Prop := ∀ p ∈ s.valueOwners, ∃ sc ∈ s.scopes, sc.id = p.1
@@ -93,23 +129,37 @@ instance (s : State) : Decidable (KeysUnique s) := by unfold KeysUnique; infer_i
 
 /-- The part of the invariant that does not mention "every session has a scope" (it also held
 of the code before the repair ab8bb51a7; `UsedSessionsHaveScope` follows from the three record
-clauses). -/
+clauses).  Of the two by-owner lookups of SPECIFICATIONS only "nothing stale" is part of it: the
+code can lose an entry of a specification owner that is re-spelled (finding
+C14-spec-owner-respelling-drops-index-entry); "nothing missing" is `OwnerComplete`. -/
 structure Inv (s : State) : Prop where
   keys : KeysUnique s
   recSession : RecordsHaveSession s
   recScope : RecordsHaveScope s
   recInScope : RecordsInSessionScope s
-  addrScope : AddrScopeExact s
+  addrScope : AddrScopeExact B s
   specScope : SpecScopeExact s
-  ownerScopeSpec : OwnerScopeSpecExact s
+  ownerScopeSpec : OwnerScopeSpecSound B s
   cspecScopeSpec : CSpecScopeSpecExact s
-  ownerCSpec : OwnerCSpecExact s
+  ownerCSpec : OwnerCSpecSound B s
   voScope : ValueOwnersHaveScope s
   navScope : NavsHaveScope s
 
-/-- The property's full referential-integrity and lookup claim: holds after every history of the
-current code (`PvProofs.C14.refInv_reachable`). -/
-def FullInv (s : State) : Prop := Inv s ∧ SessionsHaveScope s
+/-- The referential-integrity and lookup claim that holds after EVERY history of the current code
+(`PvProofs.C14.refInv_reachable`): everything the property says except "nothing missing" for the
+two by-owner lookups of specifications. -/
+def FullInv (s : State) : Prop := Inv B s ∧ SessionsHaveScope s
+
+/-- "Nothing missing" for the two by-owner lookups of specifications, together with what makes it
+inductive: every owner text of a stored specification satisfies `P`.  It is preserved by
+histories whose specification-owner texts all satisfy a `P` on which `B` is injective (one
+spelling per account; `PvProofs.C14.ownerComplete_run_partial`), and NOT in general
+(`PvProofs.C14.contractSpecsForOwner_incomplete_witness`). -/
+structure OwnerComplete (P : Addr → Prop) (s : State) : Prop where
+  scopeSpecOwners : ∀ sp ∈ s.scopeSpecs, ∀ a ∈ sp.owners, P a
+  contractSpecOwners : ∀ sp ∈ s.contractSpecs, ∀ a ∈ sp.owners, P a
+  ownerScopeSpec : OwnerScopeSpecComplete B s
+  ownerCSpec : OwnerCSpecComplete B s
 
 /-! ### "deleting a scope removes all of its sessions, records, lookups and net asset values" -/
 
@@ -131,18 +181,27 @@ instance (s : State) (id : UUID) : Decidable (ScopeGone s id) := by unfold Scope
 def orphanSessions (s : State) : List SessionId :=
   (s.sessions.filter (fun x => !khas (·.id) s.scopes x.id.scope)).map (·.id)
 
-/-- the names of the clauses of `Inv` that fail on a (dumped) state, in a fixed order -/
+/-- the owner TEXTS a message writes into a specification -/
+def Op.specOwnerTexts : Op → List Addr
+  | .writeScopeSpec sp => sp.owners
+  | .writeContractSpec sp => sp.owners
+  | _ => []
+
+/-- the names of the clauses of the property's invariant (all lookups EXACT) that fail on a
+(dumped) state, in a fixed order -/
 def violations (s : State) : List String :=
   (if decide (KeysUnique s) then [] else ["duplicate_store_key"]) ++
   (if decide (RecordsHaveSession s) then [] else ["record_without_session"]) ++
   (if decide (RecordsHaveScope s) then [] else ["record_without_scope"]) ++
   (if decide (RecordsInSessionScope s) then [] else ["record_session_in_other_scope"]) ++
-  (if decide (AddrScopeExact s) then [] else ["lookup_address_to_scope_inexact"]) ++
+  (if decide (AddrScopeExact B s) then [] else ["lookup_address_to_scope_inexact"]) ++
   (if decide (SpecScopeExact s) then [] else ["lookup_scopespec_to_scope_inexact"]) ++
-  (if decide (OwnerScopeSpecExact s) then [] else ["lookup_owner_to_scopespec_inexact"]) ++
+  (if decide (OwnerScopeSpecExact B s) then [] else ["lookup_owner_to_scopespec_inexact"]) ++
   (if decide (CSpecScopeSpecExact s) then [] else ["lookup_contractspec_to_scopespec_inexact"]) ++
-  (if decide (OwnerCSpecExact s) then [] else ["lookup_owner_to_contractspec_inexact"]) ++
+  (if decide (OwnerCSpecExact B s) then [] else ["lookup_owner_to_contractspec_inexact"]) ++
   (if decide (ValueOwnersHaveScope s) then [] else ["value_owner_without_scope"]) ++
   (if decide (NavsHaveScope s) then [] else ["nav_without_scope"])
+
+end
 
 end PvModel.MdStore
